@@ -33,7 +33,7 @@ def cases(ctx):
     return eg.engine_cases(max_jobs=ctx.pick(5, 7), tokens=2, tok_pct=85, up_pct=25, fail_pct=25, launch_error_pct=8, dups=False, wait_pct=30, done_pct=2, adopt_pct=0)
 
 
-PARTS = [Part("engine", prop, strategy=cases, quick=6400, thorough=160000, shrink_budget=40)]
+PARTS = [Part("engine", prop, strategy=cases, quick=6400, thorough=64000, shrink_budget=40)]
 # --- real schedulers sharing a token; one of them is killed while its jobs hold tokens ----------
 
 
